@@ -916,7 +916,7 @@ class PathEval:
                     # a helper introduced after the rules were written: splice its paths in instead of an opaque call
                     events = events[:-1]
                     for (cevents, cfacts, cend) in summ:
-                        sub = _Subst(args, bb, path if path in self.fx.fns else norm_path(path))
+                        sub = _Subst(args, bb, path if path in self.fx.fns else norm_path(path), self.body.key)
                         st2 = self._clone(st)
                         feasible = True
                         for c, fact in cfacts:
@@ -1041,7 +1041,7 @@ class PathEval:
                 env = ("ref", f) if byref else f
                 out = []
                 for (cevents, cfacts, cend) in summ:
-                    sub = _Subst((env,) + tuple(args), bb, key)
+                    sub = _Subst((env,) + tuple(args), bb, key, self.body.key)
                     out.append(([sub.event(e) for e in cevents if e.kind != "cond"], [(sub(c), fact) for c, fact in cfacts], sub(cend[1]) if cend[0] == "return" else None))
                 return out
             return [([], [], ("call", "closure-apply", (), (f,) + tuple(args), bb))]
@@ -1051,7 +1051,7 @@ class PathEval:
             if summ is not None:
                 out = []
                 for (cevents, cfacts, cend) in summ:
-                    sub = _Subst(tuple(args), bb, path if path in self.fx.fns else norm_path(path))
+                    sub = _Subst(tuple(args), bb, path if path in self.fx.fns else norm_path(path), self.body.key)
                     out.append(([sub.event(e) for e in cevents if e.kind != "cond"], [(sub(c), fact) for c, fact in cfacts], sub(cend[1]) if cend[0] == "return" else None))
                 return out
             return [([], [], ("call", path, (), tuple(args), None if is_pure(path) else bb))]
@@ -1287,14 +1287,18 @@ def _fold_try(path, args, gargs=()):
     return None
 
 
+INLINED_SITES = {}      # (caller key, renamed call-site id) -> (callee key, call-site block in the callee): lets format-site lookups follow inlined calls
+
+
 class _Subst:
     """substitute a callee's parameters by the argument terms of one call site; callee call-site ids are made unique per caller site;
     events are re-homed to the caller's call block so that spans / loop membership refer to the caller"""
 
-    def __init__(self, args, bb, callee=None):
+    def __init__(self, args, bb, callee=None, caller=None):
         self.args = args
         self.bb = bb
         self.callee = callee
+        self.caller = caller
         self.memo = {}
 
     def __call__(self, t):
@@ -1312,7 +1316,11 @@ class _Subst:
             r = (t[0], -(t[1] + 1) - 1000 * (self.bb + 1)) + tuple(self(x) if isinstance(x, tuple) else x for x in t[2:])
         elif t[0] == "call" and len(t) == 5:
             site = t[4]
-            r = ("call", t[1], t[2], tuple(self(a) for a in t[3]), (None if site is None else -(self.bb * 10000 + site + 1)))
+            nsite = None if site is None else -(self.bb * 10000 + site + 1)
+            if nsite is not None and self.caller is not None:
+                origin = INLINED_SITES.get((self.callee, site), (self.callee, site)) if isinstance(site, int) and site < 0 else (self.callee, site)
+                INLINED_SITES[(self.caller, nsite)] = origin
+            r = ("call", t[1], t[2], tuple(self(a) for a in t[3]), nsite)
         elif t[0] == "const":
             r = t
         else:
